@@ -422,25 +422,84 @@ class _H(_V):
 
 FAMILY = ["plain text", "", "{x}", "{x!s}", "{x!r}", "{x} and {x}", "{x!r} {x!s} {x}", "{x}{y}", "{{braces}} {x}", "{n} items", "{s!r}",
           "ratio={ratio}", "{u}", "{f()}", "{f}", "{f} -> {f()}", "{f()} -> {f}", "{f()!r} {f()}", "{f!r} {f()!r}", "{h.inner}", "{h.inner!r} {h.inner}",
-          "{h.table[k]}", "{h.fn()}", "{h.fn} {h.fn()}", "tail {y} end"]
+          "{h.table[k]}", "{h.fn()}", "{h.fn} {h.fn()}", "tail {y} end", "{routes[1].fn()}", "{routes[0].inner} {routes[1].table[k]!r}",
+          "{h.table[k].fn()}", "{routes[0].fn().tag}", "state={state}", "{state!r} at {level}", "{seq}"]
+
+
+class _NamedConstant:
+    """Model of constantly.NamedConstant."""
+
+    def __init__(self, container, name):
+        self._container, self.name = container, name
+
+    def __repr__(self):
+        return f"<{self._container}={self.name}>"
+
+
+class _InvalidLogLevelError(Exception):
+    pass
+
+
+class _LogLevelModel:
+    """Model of twisted.logger.LogLevel (constantly.Names API: lookupByName raises ValueError, levelWithName
+    raises InvalidLogLevelError, iterconstants)."""
+
+    def __init__(self):
+        for n in ("debug", "info", "warn", "error", "critical"):
+            setattr(self, n, _NamedConstant("LogLevel", n))
+
+    def iterconstants(self):
+        return iter([self.debug, self.info, self.warn, self.error, self.critical])
+
+    def lookupByName(self, name):
+        if name in ("debug", "info", "warn", "error", "critical"):
+            return getattr(self, name)
+        raise ValueError(name)
+
+    def levelWithName(self, name):
+        try:
+            return self.lookupByName(name)
+        except ValueError:
+            raise _InvalidLogLevelError(name)
+
+
+_LEVELS = _LogLevelModel()
 
 
 def _values():
-    return {"x": _V("x"), "y": _V("y"), "n": 3, "s": "text", "ratio": float("inf"), "u": "\xe9", "f": _F("f"), "h": _H("h")}
+    h = _H("h")
+    h.table["k"] = _H("h.table[k]")
+    return {"x": _V("x"), "y": _V("y"), "n": 3, "s": "text", "ratio": float("inf"), "u": "\xe9", "f": _F("f"), "h": h,
+            "routes": [_H("r0"), _H("r1")], "state": _NamedConstant("ConnState", "established"), "level": _LEVELS.info,
+            "seq": [1, _NamedConstant("ConnState", "closing"), "z"]}
+
+
+def _resolve(field, values):
+    """A field path with the call syntax of twisted.logger: every dotted segment (and the first name) may end in '()'."""
+    import _string
+    first, rest = _string.formatter_field_name_split(field)
+
+    def step(getter, name):
+        callit = isinstance(name, str) and name.endswith("()")
+        v = getter(name[:-2] if callit else name)
+        return v() if callit else v
+    obj = step(values.__getitem__, first)
+    for is_attr, i in rest:
+        if is_attr:
+            obj = step(lambda nm, o=obj: getattr(o, nm), i)
+        else:
+            obj = obj[i]
+    return obj
 
 
 def _expected(fmt, values):
     import string
-    fm = string.Formatter()
     out = []
-    for lit, field, spec, conv in fm.parse(fmt):
+    for lit, field, spec, conv in string.Formatter().parse(fmt):
         out.append(lit)
         if field is None:
             continue
-        callit = field.endswith("()")
-        obj, _ = fm.get_field(field[:-2] if callit else field, (), values)
-        if callit:
-            obj = obj()
+        obj = _resolve(field, values)
         obj = {None: lambda v: v, "s": str, "r": repr, "a": ascii}[conv](obj)
         out.append(format(obj, spec or ""))
     return "".join(out)
@@ -450,18 +509,26 @@ def _concrete(ctx):
     import collections
     import json
     import string
+    import typing
     import uuid
-    import types
     from sa.props._lib_k import Interp, Nonterminating
-    fl, js = ctx.mod(FLAT), ctx.mod(JSON)
-    nc = type("NamedConstant", (), {})
+    fl, js, fm = ctx.mod(FLAT), ctx.mod(JSON), ctx.mod(FMT)
     fa = type("Failure", (), {})
+
+    def safe_repr(o):
+        try:
+            return repr(o)
+        except BaseException:
+            return "<unrepresentable>"
     it = Interp({"aFormatter": string.Formatter(), "Formatter": string.Formatter, "defaultdict": collections.defaultdict, "dumps": json.dumps,
-                 "loads": json.loads, "UUID": uuid.UUID, "NamedConstant": nc, "Failure": fa, "LogLevel": types.SimpleNamespace(),
-                 "JSONDict": dict, "LogEvent": dict, "Dict": dict, "Any": object, "Optional": None, "Union": None}, budget=2000000)
+                 "loads": json.loads, "UUID": uuid.UUID, "NamedConstant": _NamedConstant, "Failure": fa, "LogLevel": _LEVELS,
+                 "InvalidLogLevelError": _InvalidLogLevelError, "safe_repr": safe_repr,
+                 "JSONDict": dict, "LogEvent": dict, "Dict": typing.Dict, "Any": typing.Any, "Optional": typing.Optional, "Union": typing.Union,
+                 "Mapping": typing.Mapping}, budget=4000000)
     it.load(fl)
     it.load(js, only={"eventAsJSON", "eventFromJSON", "objectSaveHook", "objectLoadHook", "failureAsJSON", "failureFromJSON"})
-    for name in ("flattenEvent", "flatFormat", "eventAsJSON", "eventFromJSON"):
+    it.load(fm, only={"_formatEvent", "formatWithCall", "formatUnformattableEvent", "keycall", "PotentialCallWrapper", "CallMapping"})
+    for name in ("flattenEvent", "flatFormat", "eventAsJSON", "eventFromJSON", "_formatEvent", "formatWithCall"):
         ctx.need(name in it.globals, f"function {name}")
     for name in ("classInfo", "uuidToLoader"):
         expr = js.module_assign(name)
@@ -470,9 +537,7 @@ def _concrete(ctx):
     G = it.globals
 
     def text_of(event):
-        if "log_flattened" in event:
-            return G["flatFormat"](event)
-        return _expected(event["log_format"], event)   # nothing was flattened: the live formatter is used
+        return G["_formatEvent"](event)   # the real dispatcher: flatFormat for flattened events, formatWithCall otherwise
 
     def guarded(fn):
         try:
@@ -487,6 +552,9 @@ def _concrete(ctx):
         want = _expected(fmt, _values())
         e1 = dict(_values(), log_format=fmt)
 
+        def stage0():
+            return text_of(dict(_values(), log_format=fmt))
+
         def stage1():
             G["flattenEvent"](e1)
             return text_of(e1)
@@ -499,13 +567,69 @@ def _concrete(ctx):
             e3 = dict(_values(), log_format=fmt)
             return text_of(G["eventFromJSON"](G["eventAsJSON"](e3)))
         bad = None
-        for label, fn in (("after flattenEvent", stage1), ("after flattening twice", stage2), ("after eventAsJSON/eventFromJSON", stage3)):
+        for label, fn in (("the original event (live formatter)", stage0), ("after flattenEvent", stage1), ("after flattening twice", stage2),
+                          ("after eventAsJSON/eventFromJSON", stage3)):
             got = guarded(fn)
             if got != want and bad is None:
                 bad = (label, got)
         ctx.check(bad is None, "roundtrip/concrete-family", f"{QF}flattenEvent|flatFormat | {fmt!r}",
-                  (f"{bad[0]} the event formats as {bad[1]!r}, the original formats as {want!r}" if bad else ""), detail=f"all three stages give {want!r}")
+                  (f"{bad[0]} formats as {bad[1]!r}; str.format with call syntax gives {want!r} - original, flattened and JSON-loaded text must coincide" if bad else ""),
+                  detail=f"all four stages give {want!r}")
     ctx.floor("roundtrip/concrete-family", len(FAMILY), 20, "format strings")
+
+
+def _encoder_total(ctx):
+    """The fallback encoder (eventAsJSON.default -> objectSaveHook -> classInfo predicates / savers) is applied to arbitrary
+    objects reachable from the event: nothing in it may raise (exception-escape analysis, isinstance narrowing)."""
+    from sa.props._lib_k import HOSTILE, TYPED, EscapeAnalysis
+    js = ctx.mod(JSON)
+    sv = ctx.func(JSON, "objectSaveHook")
+    table = js.module_assign("classInfo")
+    ctx.need(isinstance(table, ast.List), "classInfo table")
+    an = EscapeAnalysis(ctx, [JSON])
+    param = sv.args.args[0].arg
+    loops = [n for n in ast.walk(sv) if isinstance(n, ast.For) and isinstance(n.iter, ast.Name) and n.iter.id == "classInfo" and isinstance(n.target, ast.Tuple)]
+    ctx.need(len(loops) == 1, "the loop over classInfo in objectSaveHook")
+    lp = loops[0]
+    tests = {c.func.id for st in ast.walk(lp) if isinstance(st, ast.If) for c in ast.walk(st.test) if isinstance(c, ast.Call) and isinstance(c.func, ast.Name)}
+    analysed = []
+    for pos, t in enumerate(lp.target.elts):
+        if not isinstance(t, ast.Name):
+            continue
+        used = any(isinstance(c, ast.Call) and isinstance(c.func, ast.Name) and c.func.id == t.id for c in ast.walk(lp))
+        if not used:
+            continue
+        fns = []
+        for i, row in enumerate(table.elts):
+            if not (isinstance(row, ast.Tuple) and len(row.elts) == len(lp.target.elts)):
+                raise AnalysisError("classInfo row does not match the unpacking in objectSaveHook")
+            el = row.elts[pos]
+            if isinstance(el, ast.Lambda):
+                fd = ast.FunctionDef(name=f"classInfo[{i}].{t.id}", args=el.args, body=[ast.Return(value=el.body)], decorator_list=[], lineno=el.lineno, col_offset=0)
+                fd._parent = js.tree
+                fd.body[0]._parent = fd
+                fns.append(fd)
+            elif isinstance(el, ast.Name) and isinstance(js.find(el.id), ast.FunctionDef):
+                fns.append(js.find(el.id))
+            else:
+                raise AnalysisError(f"classInfo[{i}][{pos}] is applied to event objects but is not a lambda / module function")
+        an.table_funcs[t.id] = [(fn, HOSTILE if t.id in tests else TYPED) for fn in fns]
+        analysed += [fn.name for fn in fns]
+    an.run(JSON, "objectSaveHook", {param: HOSTILE})
+    dflt = ctx.func(JSON, "eventAsJSON.default")
+    an.analyse(JSON, dflt, {dflt.args.args[0].arg: HOSTILE}, "none")
+    flagged = set()
+    for st in sorted(an.sites.values(), key=lambda x: (x.node.lineno, x.op)):
+        if st.level == "all":
+            continue
+        flagged.add(st.qual)
+        ctx.violation("json/encoder-total", ctx.construct(f"twisted.logger._json.{st.qual}", st.node),
+                      f"{st.why}: the JSON fallback encoder is applied to every object json cannot encode, so eventAsJSON raises for such an event "
+                      "instead of producing text that formats like the original")
+    for q in ["objectSaveHook", "eventAsJSON.default"] + analysed:
+        if q not in flagged:
+            ctx.ok("json/encoder-total", f"twisted.logger._json.{q}", "no may-raise operation on an arbitrary object")
+    ctx.floor("json/encoder-total", len(analysed), 3, "table callables")
 
 
 def check(ctx):
@@ -515,6 +639,8 @@ def check(ctx):
         _dispatch(ctx)
     with ctx.section("JSON"):
         _json(ctx)
+    with ctx.section("JSON fallback encoder"):
+        _encoder_total(ctx)
     with ctx.section("concrete family"):
         _concrete(ctx)
 
@@ -558,6 +684,16 @@ MUTANTS = [
     Mutant("structured-key-call-skipped-when-seen", FLAT, "        flattenedKey = keyFlattener.flatKey(fieldName, formatSpec, conversion)\n        structuredKey = keyFlattener.flatKey(fieldName, formatSpec, \"\")\n\n        if flattenedKey in fields:\n            # We've already seen and handled this key\n            continue\n",
            "        flattenedKey = keyFlattener.flatKey(fieldName, formatSpec, conversion)\n        if fieldName + \"!s:\" in fields and conversion == \"s\":\n            flattenedKey = fieldName + \"!s:\"\n        structuredKey = keyFlattener.flatKey(fieldName, formatSpec, \"\")\n\n        if flattenedKey in fields:\n            continue\n",
            expect_rule="roundtrip/concrete-family"),
+    Mutant("level-predicate-uses-raising-lookup", JSON, "            and getattr(LogLevel, level.name, None) is level\n", "            and LogLevel.lookupByName(level.name) is level\n",
+           expect_rule="json/encoder-total"),
+    Mutant("level-predicate-without-type-test", JSON, "            isinstance(level, NamedConstant)\n            and getattr(LogLevel, level.name, None) is level\n",
+           "            getattr(LogLevel, level.name, None) is level\n", expect_rule="json/encoder-total"),
+    Mutant("default-decodes-bytes-as-utf8", JSON, "            return unencodable.decode(\"charmap\")", "            return unencodable.decode(\"utf-8\")", expect_rule="json/encoder-total"),
+    Mutant("indexed-element-not-rewrapped", FMT, "        value = self._wrapped[name]  # type:ignore[index]\n        return PotentialCallWrapper(value)\n",
+           "        value = self._wrapped[name]  # type:ignore[index]\n        return value\n", expect_rule="roundtrip/concrete-family"),
+    Mutant("call-wrapper-str-is-repr", FMT, "    def __str__(self) -> str:\n        return str(self._wrapped)\n", "    def __str__(self) -> str:\n        return repr(self._wrapped)\n",
+           expect_rule="roundtrip/concrete-family"),
+    Mutant("keycall-calls-before-lookup-strip", FMT, "    realKey = key[:-2] if callit else key\n", "    realKey = key[:-1] if callit else key\n", expect_rule="roundtrip/concrete-family"),
     Mutant("json-without-flatten", JSON, "    flattenEvent(event)\n    return dumps(", "    return dumps(", expect_rule="json/flatten-before-dumps"),
     Mutant("reader-joins-with-space", FLAT, "    return \"\".join(s)", "    return \" \".join(s)", expect_rule="reader/joins-with-empty-separator"),
     Mutant("reader-field-before-literal", FLAT, "        s.append(literalText)\n\n        if fieldName is not None:\n            key = keyFlattener.flatKey(fieldName, formatSpec, conversion or \"s\")\n            s.append(str(fieldValues[key]))\n",
@@ -581,5 +717,8 @@ SILENT = [
     Silent("memo-keyed-by-name-and-call-flag", FLAT, _M_OLD, _memo("(fieldName, callit)"), more=[_M_DECL]),
     Silent("memo-keyed-by-flattened-key", FLAT, _M_OLD, _memo("flattenedKey"), more=[_M_DECL]),
     Silent("dumps-keeps-unicode", JSON, "dumps(event, default=default, skipkeys=True)", "dumps(event, default=default, skipkeys=True, ensure_ascii=False, allow_nan=True)"),
+    Silent("indexed-element-rewrapped-inline", FMT, "        value = self._wrapped[name]  # type:ignore[index]\n        return PotentialCallWrapper(value)\n",
+           "        return PotentialCallWrapper(self._wrapped[name])\n"),
+    Silent("level-predicate-by-membership", JSON, "            and getattr(LogLevel, level.name, None) is level\n", "            and any(level is c for c in LogLevel.iterconstants())\n"),
     Silent("json-local-for-text", JSON, "    flattenEvent(event)\n    return dumps(event, default=default, skipkeys=True)", "    flattenEvent(event)\n    text = dumps(event, default=default, skipkeys=True)\n    return text"),
 ]
